@@ -995,7 +995,7 @@ func (fx *FnExec) mapKey(k *Term, t types.Type) *Term {
 	kt := App(fn, SInt, k)
 	// pairwise: key(a) == key(b) <=> a == b (value equality), instantiated eagerly for the ground key terms seen
 	ks := kt.String()
-	if strings.Contains(ks, "!q") || strings.Contains(ks, "!k") || strings.Contains(ks, "!c") {
+	if specBodyDepth > 0 || strings.Contains(ks, "!q") || strings.Contains(ks, "!k") || strings.Contains(ks, "!c") {
 		return kt
 	}
 	for _, o := range keyTerms[fn] {
